@@ -457,6 +457,10 @@ compile:
 // monitorTaskStats monitors stats (e.g. records read/written) of the task
 // running on m, updating task's status until ctx is done.
 func monitorTaskStats(ctx context.Context, m *sliceMachine, task *Task) {
+	// Capture the status of this attempt: the evaluator replaces
+	// task.Status (under the task's lock) when it resubmits the task, which
+	// can happen while this goroutine is still finishing its last poll.
+	status := task.Status
 	wait := func() {
 		select {
 		case <-time.After(statsPollInterval):
@@ -471,7 +475,7 @@ func monitorTaskStats(ctx context.Context, m *sliceMachine, task *Task) {
 			wait()
 			continue
 		}
-		task.Status.Printf("%s: %s", m.Addr, *vals)
+		status.Printf("%s: %s", m.Addr, *vals)
 		wait()
 	}
 }
